@@ -90,6 +90,7 @@ package test
 //@     && (kLast(r, "egressNetworkPolicyNamespace", j) ==> m.EgressPolicyNamespace == kStr(kElems(r)[j]))
 //@ func addAllFieldsToFlowType1(flowMsg, record) ()
 //@   requires nn: flowMsg != nil
+//@   replay kafkafields
 //@   requires rec: kRecOK(record) && kFlowType1Kinds(record)
 //@   given j0
 //@   ensures  f_TimeFlowStartInSecs: kLast(record, "flowStartSeconds", j0) ==> flowMsg.TimeFlowStartInSecs == kU32(kElems(record)[j0])
@@ -208,6 +209,7 @@ package test
 //@     && (kLast(r, "egressNetworkPolicyNamespace", j) ==> m.EgressPolicyNamespace == kStr(kElems(r)[j]))
 //@ func addAllFieldsToFlowType2(flowMsg, record) ()
 //@   requires nn: flowMsg != nil
+//@   replay kafkafields
 //@   requires rec: kRecOK(record) && kFlowType2Kinds(record)
 //@   given j0
 //@   ensures  f_TimeFlowStartInSecs: kLast(record, "flowStartSeconds", j0) ==> flowMsg.TimeFlowStartInSecs == kU32(kElems(record)[j0])
